@@ -438,6 +438,10 @@ Fixpoint tp_parse_root (fuel : nat) (ts : list ttok) (exprs_rev : list expr) (ds
       end
   end.
 
+(* fuel of the template-token parser: every recursive call has consumed a template token
+   at most two calls earlier (TemplateParserProofs.v: tp_parse_root_total) *)
+Definition tp_fuel (parts : list ttok) : nat := 2 * length parts + 3.
+
 Definition lift_tres {A} (r : tres A) : M A :=
   match r with TOk a => ret a | TOutOfFuel => out_of_fuel | TPanic c => panic c end.
 
@@ -447,7 +451,7 @@ Definition parse_template_inner (pe : M (expr * diags)) (fuel : nat) (end_ : Z) 
   '(parts, ds) <- parse_template_parts pe fuel end_ ;;
   let parts := if flush_heredoc then flush_heredoc_template_parts parts else parts in
   let parts := meld_consecutive_string_literals parts in
-  '(exprs, eds) <- lift_tres (tp_parse_root fuel parts [] []) ;;
+  '(exprs, eds) <- lift_tres (tp_parse_root (tp_fuel parts) parts [] []) ;;
   let passthru := match parts with [TInterp _; _] => true | _ => false end in
   ret (exprs, passthru, ds ++ eds).
 
